@@ -23,7 +23,7 @@ RULE = (
 )
 ASSUMPTIONS = ["responder model follows the check precedence given in the statement of C16"]
 FLOORS = {"quick": {"messages": 12000, "decision_classes": 4400, "replies_decoded": 5000,
-                    "multicast_silent": 1000, "multi_message_datagrams": 300, "replies_sent_back_to_the_service": 1500,
+                    "multicast_silent": 1000, "multi_message_datagrams": 300, "replies_sent_back_to_the_service": 1500, "service_objects_announced_and_withdrawn_before_serving": 4,
                     "datagrams_handled_with_debug_logging_on": 5000, "datagrams_handled_with_debug_logging_off": 5000}}
 
 SID, MAJ, MINOR = 0x1234, 3, 7
@@ -117,7 +117,21 @@ def make_service():
     gc.collect()
     s.register_method(M_NONE, h_none)
     s.register_method(M_REJECT, h_reject)
+    # the service's announcement history is no part of how it answers calls: every other service object has been announced on one
+    # (never started) discovery stack and on a second one, and withdrawn again from the first - its endpoint stays open
+    _MADE[0] += 1
+    if _MADE[0] % 2 == 0:
+        import someip.sd as S
+        prots = [S.ServiceDiscoveryProtocol(addr) for addr in (("224.224.224.245", 30490), ("ff02::224:245", 30490))]
+        for prot in prots:
+            s.start_announce(prot.announcer)
+        s.stop_announce(prots[0].announcer)
+        s._pv_prots = prots
+        s._pv_announced = True
     return s, calls
+
+
+_MADE = [0]
 
 
 def check_datagram(svc, calls, msgs, multicast, addr, ctx, replay):
@@ -210,6 +224,10 @@ def shards(tier, seed):
 def run(spec, ctx):
     rng = random.Random(f"C16/{spec['seed']}/{spec['shard']}")
     svc, calls = make_service()
+    ctx_n = [0]
+    svc2, calls2 = make_service()  # the twin with the other announcement history serves every other datagram
+    if getattr(svc, "_pv_announced", False) or getattr(svc2, "_pv_announced", False):
+        ctx.count("service_objects_announced_and_withdrawn_before_serving")
     classes = list(itertools.product(
         (True, False), (True, False), ("bytes", "empty", "none", "reject", "unknown"),
         refwire.MSG_TYPES, refwire.RET_CODES, (False, True)))
@@ -229,7 +247,9 @@ def run(spec, ctx):
             m = dict(sid=sid, mid=mid, cid=cid, sess=sess, iv=iv, mt=mt, rc=rc, payload=payload)
             # (a dual-stack socket reports an IPv4 client as an IPv4-mapped IPv6 address; a link-local one with its scope id)
             addr = rng.choice((("192.0.2.9", 40000), ("2001:db8::9", 40001, 0, 0), ("::ffff:192.0.2.9", 40000, 0, 0), ("fe80::9", 40001, 0, 3)))
-            check_datagram(svc, calls, [m], mc, addr, ctx, dict(msgs=[m], multicast=mc, addr=addr))
+            sv, cl = (svc, calls) if ctx_n[0] % 2 else (svc2, calls2)
+            ctx_n[0] += 1
+            check_datagram(sv, cl, [m], mc, addr, ctx, dict(msgs=[m], multicast=mc, addr=addr, announced=getattr(sv, "_pv_announced", False)))
             ctx.count("messages")
             faults = (not sok) + (not vok) + (hk == "unknown") + (mt not in (0, 1)) + (rc != 0)
             if faults > 1:
@@ -260,6 +280,8 @@ def run(spec, ctx):
 
 def replay(doc, ctx):
     svc, calls = make_service()
+    if bool(doc.get("announced")) != bool(getattr(svc, "_pv_announced", False)):
+        svc, calls = make_service()
     addr = tuple(doc["addr"])
     if doc.get("first"):
         # the message whose replies are sent back comes first
